@@ -173,7 +173,10 @@ def k_batch(N=3, G=1, mode="both", states=2, max_est=10000, sym_np=True, shapes=
         for (data, fname) in W["dumps"]:
             idx = int(fname.rsplit("_batch_", 1)[1].split(".")[0])
             batches.append(dict(index=idx, jobs=data["jobs"], file=fname))
-        ex.check(len(batches) == len(W["sbatch"]) == len(W["scripts"]), "C01/C07: one sbatch per batch config",
+        if len(W["scripts"]) != len(batches):
+            # the recorders of this kernel were bypassed (e.g. an internal helper was renamed): a harness problem, not a finding
+            raise RuntimeError("K-batch recorders out of step: %d batch configs, %d run scripts" % (len(batches), len(W["scripts"])))
+        ex.check(len(batches) == len(W["sbatch"]), "C01/C07: one sbatch per batch config",
                  batches=len(batches), sbatch=len(W["sbatch"]))
         placed = {}
         for b in batches:
